@@ -140,7 +140,7 @@ class ReplayMonitor(Monitor):
 
 WLS = [wl("chain3"), wl("diamond"), wl("multitask"), wl("fail_mid"), wl("raise_mid"), wl("continue_on_fail"),
        wl("skip_stage"), wl("poll", 1), wl("transient", 1, True), wl("jump_cycle", 2, 2), wl("jump_self", 1),
-       wl("or_split_join"), wl("synthetic"), wl("fail_branch"), wl("jump_forward_diamond", 1)]
+       wl("or_split_join"), wl("synthetic"), wl("synthetic_raise"), wl("fail_branch"), wl("jump_forward_diamond", 1)]
 CANCEL = [wl("diamond"), wl("multitask"), wl("fail_mid"), wl("continue_on_fail"), wl("skip_stage")]
 
 
